@@ -140,6 +140,7 @@ def run(ctx):
         ctx.rule_stats["C17.R3"] = st
 
     entry_delegation(ctx, "C17.R4")
+    unused_parameters(ctx, "C17.R4", lambda f: f.cls is not None and f.cls.name in ("Construct", "Compiled") and not f.name.startswith("_"))   # no entry point drops an argument (e.g. the keyword context)
 
     # R5: start-offset independence -- no amount read, written or skipped depends on the absolute position of the stream
     # (positions may be told, restored and reported; what is consumed or emitted is a function of position *differences* only)
